@@ -21,3 +21,6 @@ func (w *CronWorker) VerifSchedule() *cronschedule.Schedule { return w.schedule 
 func VerifNewEnqueueHandler(ctrlContext *Context) EnqueueHandler {
 	return newEnqueueHandler(ctrlContext)
 }
+
+// VerifCronWorker returns the controller's cron worker.
+func (c *Controller) VerifCronWorker() *CronWorker { return c.cronWorker }
